@@ -86,8 +86,9 @@ def run_auth(scripts, fields, limit=128):
     functions = env.mods()[0]
     Tr.counts = {}
     try:
-        return functions.run_auth_scripts(list(scripts), dict(fields),
-                                          callstack_limit=limit)
+        lim = env.roomy_limits(*scripts)
+        lim['callstack_limit'] = limit
+        return functions.run_auth_scripts(list(scripts), dict(fields), **lim)
     except BaseException as e:
         return e
 
